@@ -183,3 +183,28 @@ def boundary_points(spec):
     pts = {p for p in pts if -1 <= p <= n + 2}
     pts |= {p - n for p in pts if p <= n} | {-n - 1, -n - 2, -1}
     return sorted(pts)
+
+
+def huge_specs():
+    """A few values far beyond small: hundreds of runs (with empty runs of different formatting in between), thousands of characters.
+    Code paths that only switch on above a size threshold (fast paths, caches with a minimum size) are reached only by such values."""
+    pal = ((("bold", True), ("bg", 41), ("fg", 34)), (("bold", True), ("bg", 41), ("fg", 34), ("underline", True)))
+    out = []
+    for nruns in (61, 130, 300):
+        spec = []
+        for i in range(nruns):
+            spec.append((LETTERS[i % 26] + str(i % 10), pal[0]))
+            spec.append(("", () if i % 2 else (("fg", 32),)))  # empty runs that lack the shared formatting
+        out.append(tuple(spec))
+    out.append(tuple(("w%d " % i, pal[i % 2]) for i in range(257)))
+    out.append((("x" * 5000, pal[0]),))
+    out.append((("ab " * 700, ()), ("Z", pal[1])))
+    return out
+
+
+def few_points(spec, limit=24):
+    pts = boundary_points(spec)
+    if len(pts) <= limit:
+        return pts
+    step = len(pts) / float(limit)
+    return sorted({pts[int(i * step)] for i in range(limit)} | {pts[0], pts[-1], 0, -1})
